@@ -429,6 +429,10 @@ func cmdCheck(cfg Config, prop, tier string) int {
 				report(name, "obligation discharged on the baseline tree is no longer discharged ("+s.Status+")", s, false)
 			} else if _, ok := known[name]; ok {
 				report(name, "", s, false)
+			} else if s.Kind == "effect" {
+				// the frame rule is syntactic: a call that hands shared state to an unverified callee is
+				// allowed only where it is provably unreachable
+				report(name, "an unverified callee receives shared mutable state ("+s.Status+")", s, false)
 			} else {
 				fmt.Printf("UNDECIDED obligation=%s status=%s\n", name, s.Status)
 				undecided = append(undecided, name)
